@@ -525,6 +525,7 @@ func runC01(c *Ctx) {
 	isKindSwitch := func(e ast.Expr) bool { return strings.HasSuffix(exprKey(e), ".Kind()") }
 	checkSourceReadOnly(r, p)
 	checkByteArrayKeySource(r, p)
+	checkElementsThroughCodec(r, p)
 	// (1) dispatch mirror
 	for _, pair := range [][2]string{{"encodeBasedOnType", "decodeBasedOnType"}, {"mapEncodeBasedOnType", "mapDecodeBasedOnType"}} {
 		enc, dec := p.FuncDecl(pkgSerix, "API", pair[0]), p.FuncDecl(pkgSerix, "API", pair[1])
@@ -3802,4 +3803,99 @@ func decodesViaFreshSlice(p *Prog, info *types.Info, fd *ast.FuncDecl) bool {
 		}
 	}
 	return true
+}
+
+// checkElementsThroughCodec: the decoders of collections hand every element to the generic decoder,
+// which applies the element type's registered settings (object-type prefix, validators, custom
+// serialisation). The encoders must mirror that: every element's bytes that a collection encoder
+// hands to encodeSliceOfBytes are the result of a method of the API (the recursion into the codec),
+// never bytes taken from the value directly - a shortcut for "plain" elements drops what the
+// element type registered, and Decode(Encode(x)) fails or misparses for such element types.
+func checkElementsThroughCodec(r *Reporter, p *Prog) {
+	pk := p.Pkg(pkgSerix)
+	if pk == nil {
+		r.Unresolved("encode/elements-through-codec", pkgSerix, "package not loaded")
+		return
+	}
+	info := pk.TypesInfo
+	nEnc := 0
+	for _, fd := range p.AllFuncDecls(pkgSerix) {
+		if fd.Body == nil || strings.HasSuffix(p.Fset.Position(fd.Pos()).Filename, "_test.go") || fd.Name.Name == "encodeSliceOfBytes" {
+			continue
+		}
+		// the function's own statements (helpers not spliced: a helper that is a method of the API is an origin)
+		f := newFuncCFGPlain(p, info, fd.Body, funcKey(pkgSerix, fd))
+		for _, c := range f.Calls(func(c *ast.CallExpr) bool {
+			fn := staticCallee(info, c)
+			return fn != nil && funcName(fn) == "encodeSliceOfBytes" && len(c.Args) >= 1
+		}) {
+			_, found := f.PointOf(c)
+			if !found {
+				continue
+			}
+			nEnc++
+			key := funcKey(pkgSerix, fd)
+			coll := objOfIdent(info, c.Args[0])
+			if coll == nil {
+				r.Fail("encode/elements-through-codec", key, p.posStr(c.Pos()), "the collection of element encodings is not a local variable: cannot follow its elements")
+				continue
+			}
+			var bad []string
+			nWrites := 0
+			judge := func(rhs ast.Expr, pt Point) {
+				nWrites++
+				for _, o := range f.Origins(rhs, pt) {
+					oc, isCall := ast.Unparen(o.E).(*ast.CallExpr)
+					okOrigin := false
+					if isCall {
+						if fn := staticCallee(info, oc); fn != nil {
+							if sig, _ := fn.Type().(*types.Signature); sig != nil && sig.Recv() != nil && shortTypeName(typeName(sig.Recv().Type())) == "API" {
+								okOrigin = true
+							}
+						}
+					}
+					if !okOrigin {
+						bad = append(bad, fmt.Sprintf("%s: an element's bytes are %s, not the result of the generic encoder: the element type's registered settings (object-type prefix, validators, custom serialisation) are bypassed, while the decoder still applies them to every element", f.PosOf(pt), exprKey(o.E)))
+					}
+				}
+			}
+			for _, b := range f.G.Blocks {
+				if !b.Live {
+					continue
+				}
+				for i, nd := range b.Nodes {
+					as, ok := nd.(*ast.AssignStmt)
+					if !ok {
+						continue
+					}
+					for k, l := range as.Lhs {
+						if k >= len(as.Rhs) && len(as.Rhs) != 1 {
+							continue
+						}
+						if ix, isIx := ast.Unparen(l).(*ast.IndexExpr); isIx && objOfIdent(info, ix.X) == coll && len(as.Lhs) == len(as.Rhs) {
+							judge(as.Rhs[k], Point{b, i})
+						}
+						if objOfIdent(info, l) == coll && len(as.Lhs) == len(as.Rhs) {
+							if ac, isCall := ast.Unparen(as.Rhs[k]).(*ast.CallExpr); isCall && rawKey(ac.Fun) == "append" && len(ac.Args) >= 2 && objOfIdent(info, ac.Args[0]) == coll {
+								for _, a := range ac.Args[1:] {
+									judge(a, Point{b, i})
+								}
+							}
+						}
+					}
+				}
+			}
+			switch {
+			case len(bad) > 0:
+				r.Fail("encode/elements-through-codec", key, p.posStr(c.Pos()), bad[0], bad...)
+			case nWrites == 0:
+				r.Fail("encode/elements-through-codec", key, p.posStr(c.Pos()), "no element is ever stored into the collection handed to encodeSliceOfBytes (vacuous)")
+			default:
+				r.Pass("encode/elements-through-codec", key, p.posStr(c.Pos()), fmt.Sprintf("%d element store(s), each the result of a method of the API", nWrites))
+			}
+		}
+	}
+	if nEnc < 2 {
+		r.Fail("encode/elements-through-codec", pkgSerix, "-", fmt.Sprintf("expected the slice and the map encoder to hand their elements to encodeSliceOfBytes, found %d (vacuous)", nEnc))
+	}
 }
